@@ -1154,6 +1154,7 @@ package geometry
 //@   props C11 C05
 //@   entry use globalsInit()
 //@   ensures Shape: RingShape(result) && sNpts(result) == len(points)
+//@   ensures Model: isBS(result) && (forall i int :: 0 <= i && i < len(points) ==> sPt(result, i) == ptAt(points, i))
 //@   ensures Rect: len(points) >= 3 ==> sRect(result) == bboxOf(points, len(points))
 //@   ensures Fresh: result != nil && !old($alloc)[result]
 
@@ -1161,14 +1162,20 @@ package geometry
 //@   props C11 C05
 //@   entry use globalsInit()
 //@   ensures Shape: LineShape(result) && !sClosed(result.baseSeries) && sNpts(result.baseSeries) == len(points)
+//@   ensures Model: forall i int :: 0 <= i && i < len(points) ==> sPt(result.baseSeries, i) == ptAt(points, i)
 //@   ensures Rect: len(points) >= 2 ==> sRect(result.baseSeries) == bboxOf(points, len(points))
 //@   ensures Fresh: result != nil && !old($alloc)[result]
 
 //@ func NewPoly@order
-//@   props C11 C05
+//@   props C11 C05 C07
 //@   entry use globalsInit()
 //@   ensures Shape: PolyShape(result) && polyNHoles(result) == len(holes)
 //@   ensures Fresh: result != nil && !old($alloc)[result]
+//@   ensures Ext: isBS(polyExt(result)) && sNpts(polyExt(result)) == len(exterior) && (forall i int :: 0 <= i && i < len(exterior) ==> sPt(polyExt(result), i) == ptAt(exterior, i))
+//@   ensures Holes: forall h int :: 0 <= h && h < len(holes) ==> (isBS(polyHole(result,h)) && sNpts(polyHole(result,h)) == len(holeAt(holes,h)) && (forall i int :: 0 <= i && i < len(holeAt(holes,h)) ==> sPt(polyHole(result,h), i) == ptAt(holeAt(holes,h), i)))
 //@   loop 0 invariant poly != nil && !old($alloc)[poly] && polyExt(poly) != nil && RingShape(polyExt(poly)) && polyNHoles(poly) == len(holes)
+//@   loop 0 invariant ExtM: isBS(polyExt(poly)) && sNpts(polyExt(poly)) == len(exterior) && (forall i int :: 0 <= i && i < len(exterior) ==> sPt(polyExt(poly), i) == ptAt(exterior, i))
+//@   loop 0 invariant HolesM: forall h int :: 0 <= h && h < $i ==> (isBS(polyHole(poly,h)) && sNpts(polyHole(poly,h)) == len(holeAt(holes,h)) && (forall i int :: 0 <= i && i < len(holeAt(holes,h)) ==> sPt(polyHole(poly,h), i) == ptAt(holeAt(holes,h), i)))
+//@   loop 0 assert holeAt(holes, $i) == holes[$i]
 //@   loop 0 invariant forall h int :: 0 <= h && h < $i ==> (polyHole(poly,h) != nil && RingShape(polyHole(poly,h)))
 //@   loop 0 invariant Frame: forall P *Poly :: old($alloc)[P] ==> (P.Exterior == old(P.Exterior) && P.Holes == old(P.Holes))
